@@ -219,7 +219,7 @@ struct Task {
   std::vector<VforkFrame *> vforks;
   std::function<void()> entry;
   void *fake_stack = nullptr;
-  uint64_t prio = 0;             // PCT
+  uint64_t prio = 0; int streak = 0;  // PCT
   bool started = false;
 };
 
